@@ -83,8 +83,9 @@ class Contract:
         self.raises_.append(Raises(exc, when, ensures, tuple(props if props is not None else self.props), name or exc))
         return self
 
-    def may_raise(self, exc, ensures=None, props=None, name=""):
-        self.raises_.append(Raises(exc, None, ensures, tuple(props if props is not None else self.props), name or exc, must=False))
+    def may_raise(self, exc, ensures=None, props=None, name="", when=None):
+        """allowed, not demanded; `when` (optional) restricts the states in which it may happen"""
+        self.raises_.append(Raises(exc, when, ensures, tuple(props if props is not None else self.props), name or exc, must=False))
         return self
 
     def modifies(self, *comps):
